@@ -129,6 +129,7 @@ mod types;
 #[cfg(redb_verif)]
 pub mod verif {
     pub use crate::tree_store::page_store_verif::*;
+    pub use crate::tree_store::verif::*;
 }
 
 // core cannot tell whether the current thread is unwinding, and redb's Drop impls consult that in
